@@ -43,7 +43,7 @@ pub fn plan(tier: Tier) -> Plan {
         rule: "E6: histories dominated by broker packets (inbound PUBLISH QoS 0/1/2 with small / arbitrary / zero / 65535 / repeated ids, v5 topic aliases defined / known / unknown / empty topic, PUBREL for recorded and unknown ids, PUBACK/PUBREC/PUBCOMP solicited, duplicate, unsolicited, above the limit, zero, of the wrong flow, SUBACK, UNSUBACK, PINGRESP, server DISCONNECT, mid-stream CONNACK) interleaved with user requests and failures; manual_acks on in 3/8 of the cases; v4 and v5. Every call runs under catch_unwind. For each received packet exactly one Incoming notification equal to it is appended and it precedes every Outgoing notification of that call; QoS 1 -> PUBACK(id), QoS 2 -> PUBREC(id), PUBREL of a recorded id -> PUBCOMP(id), no PUBACK/PUBREC with manual_acks; an ack the reference model never solicited must return Err and leave inflight() and the clean() set equal to the model; a call returns a packet iff it appended exactly one Outgoing notification of the same kind and id (a collision: AwaitAck and no packet), and an Err announces nothing. A case is non-trivial when it contains >= 1 completed inbound QoS 2 flow (PUBLISH, PUBREL, PUBCOMP) and >= 1 rejected acknowledgement. Distinct = distinct case hash.".to_string() + crate::clientloop::props::C10_RULE,
         assumptions: vec![
             "User requests are fed to the state machine only when EventLoop::select() would feed them: inflight() < limit (v5: < min(limit, receive_max)) and no collision pending; otherwise the op is skipped and counted. The replay of `pending` after a resumed reconnect is fed unconditionally, as the event loop does.".into(),
-            "A failure is modelled exactly as the event loop handles any error: clean(); pending kept iff the generated session_present; v5: CONNACK fed to the state machine; pending replayed in order before anything else. Requests still queued in the channel at failure time (finding K2) belong to the event-loop engine and are not generated here.".into(),
+            "A failure is modelled exactly as the event loop handles any error: clean(); pending kept iff the generated session_present; v5: CONNACK fed to the state machine; pending replayed in order before anything else. Requests still queued in the channel at failure time (K2, repaired in /repo) belong to the event-loop engine and are not generated here.".into(),
             "Every Err returned by the state machine (rejected ack, keep-alive error, server DISCONNECT) is followed by that failure handling, as in EventLoop::poll().".into(),
             "PUBCOMP in manual_acks mode: the client API has no way to send it; answering a release of a recorded id with PUBCOMP or not at all are both accepted in that mode.".into(),
             "PUBREL of an id that is not recorded (or was recorded on a previous connection): Err, no reply or PUBCOMP are all accepted (the statement only covers known ids).".into(),
